@@ -35,6 +35,18 @@ class DDSMTException(Exception):
         return "[ddsmt] Error: {}".format(self.__msg)
 
 
+def read_input():
+    """Return the text of the input file."""
+    try:
+        # no newline translation: a CR inside a literal belongs to it
+        with open(options.args().infile, 'r', newline='') as infile:
+            return infile.read()
+    except UnicodeDecodeError as e:
+        raise DDSMTException(f'input file can not be decoded: {e}')
+    except OSError as e:
+        raise DDSMTException(f'input file can not be read: {e}')
+
+
 def check_options():
     # check input file
     if not os.path.isfile(options.args().infile):
@@ -53,11 +65,7 @@ def check_options():
 
     if options.args().parser_test:
         # only parse and print
-        with open(options.args().infile, 'r', newline='') as infile:
-            try:
-                text = infile.read()
-            except UnicodeDecodeError as e:
-                raise DDSMTException(f'input file can not be decoded: {e}')
+        text = read_input()
         exprs = list(nodeio.parse_smtlib(text))
         nodeio.write_smtlib(sys.stdout, exprs)
         sys.exit(0)
@@ -159,14 +167,8 @@ def ddsmt_main():
 
         # parse the input
         start_time = time.time()
-        # no newline translation: a CR inside a literal belongs to it
-        with open(options.args().infile, 'r', newline='') as infile:
-            try:
-                text = infile.read()
-            except UnicodeDecodeError as e:
-                raise DDSMTException(f'input file can not be decoded: {e}')
-            exprs = list(nodeio.parse_smtlib(text))
-            nexprs = nodes.count_exprs(exprs)
+        exprs = list(nodeio.parse_smtlib(read_input()))
+        nexprs = nodes.count_exprs(exprs)
 
         logging.debug("parsed {} s-expressions in {:.2f} seconds".format(
             nexprs,
@@ -179,7 +181,10 @@ def ddsmt_main():
         # disable unused theories
         mutators.auto_detect_theories(exprs)
         # copy binaries to temp folder
-        tmpfiles.copy_binaries()
+        try:
+            tmpfiles.copy_binaries()
+        except OSError as e:
+            raise DDSMTException(f'command can not be copied: {e}')
         # perform golden runs to see what the solver is doing
         checker.do_golden_runs()
 
